@@ -17,6 +17,6 @@ for d in sorted(glob.glob('seeded/C*-*')):
 table = '\n'.join(rows)
 p = 'DESIGN.md'
 s = open(p).read()
-s = re.sub(r'<!-- BEGIN SEEDED TABLE -->.*?<!-- END SEEDED TABLE -->', '<!-- BEGIN SEEDED TABLE -->\n' + table + '\n<!-- END SEEDED TABLE -->', s, flags=re.S)
+s = re.sub(r'<!-- BEGIN SEEDED TABLE -->.*?<!-- END SEEDED TABLE -->', lambda _m: '<!-- BEGIN SEEDED TABLE -->\n' + table + '\n<!-- END SEEDED TABLE -->', s, flags=re.S)
 open(p, 'w').write(s)
 print(len(rows) - 2, 'rows')
